@@ -33,10 +33,16 @@ type scriptConn struct {
 	writes   [][]byte
 	writeErr error
 	closed   int
+	// honourDeadlines: an armed read deadline makes a read without data time out
+	honourDeadlines bool
+	readDeadline    bool
 }
 
 func (c *scriptConn) Read(b []byte) (int, error) {
 	if c.k >= len(c.chunks) {
+		if c.honourDeadlines && c.readDeadline {
+			return 0, &scriptErr{"read tcp 127.0.0.1:1->127.0.0.1:2: i/o timeout"}
+		}
 		return 0, c.finalErr
 	}
 	n := c.chunks[c.k]
@@ -59,8 +65,8 @@ func (c *scriptConn) Write(b []byte) (int, error) {
 func (c *scriptConn) Close() error                       { c.closed++; return nil }
 func (c *scriptConn) LocalAddr() net.Addr                { return nil }
 func (c *scriptConn) RemoteAddr() net.Addr               { return nil }
-func (c *scriptConn) SetDeadline(t time.Time) error      { return nil }
-func (c *scriptConn) SetReadDeadline(t time.Time) error  { return nil }
+func (c *scriptConn) SetDeadline(t time.Time) error      { c.readDeadline = !t.IsZero(); return nil }
+func (c *scriptConn) SetReadDeadline(t time.Time) error  { c.readDeadline = !t.IsZero(); return nil }
 func (c *scriptConn) SetWriteDeadline(t time.Time) error { return nil }
 
 func newTestStream(conn net.Conn, nbuf int, parser Parser) *MessageStream {
@@ -211,44 +217,70 @@ func (r *recMsg) Len() uint16                             { return uint16(len(r.
 func (r *recMsg) MarshalBinary() (data []byte, err error) { return r.b, nil }
 func (r *recMsg) UnmarshalBinary(data []byte) error       { return nil }
 
-// copyParser returns a message owning a copy of the frame (what C12 establishes for the real parser)
-type copyParser struct{ calls int }
+// copyParser returns a message owning a copy of the frame (what C12 establishes for the real
+// parser), or rejects the frame when told to
+type copyParser struct {
+	calls  int
+	reject bool
+	stop   chan bool // told to stop once the frame has been seen (keeps the worker's select deterministic)
+}
 
 func (p *copyParser) Parse(b []byte) (Message, error) {
 	p.calls++
+	if p.stop != nil {
+		p.stop <- true
+	}
+	if p.reject {
+		return nil, &scriptErr{"malformed"}
+	}
 	c := make([]byte, len(b))
 	copy(c, b)
 	return &recMsg{c}, nil
 }
 
 func VerifC10_ParserWorker() {
-	l := vr.IntRange("framelen", 8, 12)
-	frame := vr.Bytes("frame", l)
-	p := &copyParser{}
+	var frame []byte
+	if vr.Bool("jumbo") {
+		// a frame larger than the pool's buffers (2048 bytes): the buffer has grown to hold it
+		vr.ConcreteInputs(true)
+		frame = vr.Bytes("frame", 3000)
+		vr.ConcreteInputs(false)
+	} else {
+		frame = vr.Bytes("frame", vr.IntRange("framelen", 8, 12))
+	}
+	p := &copyParser{reject: vr.Bool("parser-rejects")}
 	m := newTestStream(&scriptConn{}, 0, p)
 	m.pool.Empty = make(chan *bytes.Buffer, 2)
 	m.pool.Full = make(chan *bytes.Buffer, 2)
 	buf := bytes.NewBuffer(make([]byte, 0, 16))
 	buf.Write(frame)
 	m.pool.Full <- buf
-	m.parserShutdown <- true // lets the worker return after (or instead of) handling the frame
+	p.stop = m.parserShutdown // the worker returns after handling the frame
 	m.parse()
-	if len(m.pool.Full) == 1 {
-		// the scheduler let the shutdown signal win: nothing consumed, nothing delivered
-		vr.Assert(len(m.Inbound) == 0 && p.calls == 0, "shutdown-first:nothing-delivered")
-		return
-	}
 	vr.Assert(p.calls == 1, "parsed-exactly-once")
-	vr.Assert(len(m.Inbound) == 1, "exactly-one-message-delivered")
-	if len(m.Inbound) == 1 {
-		msg := (<-m.Inbound).(*recMsg)
-		vr.Assert(vr.BytesEq(msg.b, frame), "delivered-message-is-the-frame")
+	if !p.reject {
+		vr.Assert(len(m.Inbound) == 1, "exactly-one-message-delivered")
+		if len(m.Inbound) == 1 {
+			msg := (<-m.Inbound).(*recMsg)
+			vr.Assert(vr.BytesEq(msg.b, frame), "delivered-message-is-the-frame")
+		}
 	}
+	// whatever buffer goes back to the reader must be empty: the reader appends the next frame
+	// to it (a frame the parser rejected must not stay in front of a later one)
 	vr.Assert(len(m.pool.Empty) == 1, "buffer-returned-to-the-pool")
 	if len(m.pool.Empty) == 1 {
 		b := <-m.pool.Empty
-		vr.Assert(b == buf && b.Len() == 0, "returned-buffer-is-reset")
+		vr.Assert(b.Len() == 0, "returned-buffer-is-empty")
 	}
+}
+
+// a shutdown signal with nothing queued: the worker returns and touches nothing
+func VerifC10_ParserWorkerShutdown() {
+	p := &copyParser{}
+	m := newTestStream(&scriptConn{}, 1, p)
+	m.parserShutdown <- true
+	m.parse()
+	vr.Assert(p.calls == 0 && len(m.Inbound) == 0 && len(m.pool.Empty) == 1, "shutdown:nothing-consumed-or-delivered")
 }
 
 // topology the composition argument needs: one reader, one writer, parse workers only read Full
@@ -261,11 +293,32 @@ func VerifC10_Topology() {
 
 // ---- C11: the writer ----
 
+// failMsg: a message whose encoder reports an error (and returns no bytes)
+type failMsg struct{}
+
+func (f *failMsg) Len() uint16                             { return 8 }
+func (f *failMsg) MarshalBinary() (data []byte, err error) { return nil, &scriptErr{"cannot encode"} }
+func (f *failMsg) UnmarshalBinary(data []byte) error       { return nil }
+
+// what reached the wire, in order (empty writes put nothing on it)
+func (c *scriptConn) wire() []byte {
+	n := 0
+	for _, w := range c.writes {
+		n += len(w)
+	}
+	out := make([]byte, 0, n)
+	for _, w := range c.writes {
+		out = append(out, w...)
+	}
+	return out
+}
+
 func VerifC11_Outbound() {
 	n := vr.IntRange("nmsgs", 0, 3)
 	conn := &scriptConn{}
 	m := newTestStream(conn, 0, nil)
 	var want [][]byte
+	total := 0
 	for i := 0; i < n; i++ {
 		var b []byte
 		if i == 1 && vr.Bool("largest") {
@@ -273,21 +326,51 @@ func VerifC11_Outbound() {
 			vr.ConcreteInputs(true)
 			b = vr.Bytes("msg", 65535)
 			vr.ConcreteInputs(false)
+		} else if i >= 1 && vr.Bool("encoder-fails") {
+			// a message that cannot be encoded has no encoding: it puts nothing on the wire, and
+			// in particular not a second copy of an earlier message
+			m.Outbound <- &failMsg{}
+			continue
 		} else {
 			b = vr.Bytes("msg", vr.IntRange("msglen", 8, 12))
 		}
 		want = append(want, b)
+		total += len(b)
 		m.Outbound <- &recMsg{b}
 	}
 	close(m.Outbound)
 	m.outbound()
-	vr.Assert(len(conn.writes) == n, "one-write-per-message")
-	for i := range want {
-		if i < len(conn.writes) {
-			vr.Assert(len(conn.writes[i]) == len(want[i]), "write-is-the-whole-encoding")
-			vr.Assert(vr.BytesEq(conn.writes[i], want[i]), "write-is-the-message's-encoding-in-submission-order")
+	// every non-empty write is one whole encoding, in submission order
+	k := 0
+	for _, w := range conn.writes {
+		if len(w) == 0 {
+			continue
 		}
+		vr.Assert(k < len(want), "no-write-without-a-message")
+		if k < len(want) {
+			vr.Assert(len(w) == len(want[k]), "write-is-the-whole-encoding")
+			vr.Assert(vr.BytesEq(w, want[k]), "write-is-the-message's-encoding-in-submission-order")
+		}
+		k++
 	}
+	vr.Assert(k == len(want), "every-encodable-message-written-once")
+	vr.Assert(len(conn.wire()) == total, "wire-is-exactly-the-encodings")
+}
+
+// The writer leaves the read side of the connection alone: after a message was sent, a peer that
+// stays silent is not turned into a connection failure (which would close the connection and
+// lose every later submission). The scripted connection honours deadlines the way net.Conn
+// documents them: a read with the read deadline armed and no data fails with a timeout; without
+// one it would block for ever, which the script ends as a local close.
+func VerifC11_WriterLeavesReadSideAlone() {
+	conn := &scriptConn{honourDeadlines: true, finalErr: &scriptErr{"read tcp 127.0.0.1:1->127.0.0.1:2: use of closed network connection"}}
+	m := newTestStream(conn, 1, nil)
+	m.Outbound <- &recMsg{vr.Bytes("msg", 8)}
+	close(m.Outbound)
+	m.outbound()
+	vr.Assert(len(conn.writes) == 1, "message-written")
+	m.inbound() // the peer sends nothing
+	vr.Assert(len(m.Error) == 0 && len(m.Shutdown) == 0, "silent-peer-after-a-send-is-not-a-failure")
 }
 
 func VerifC11_Topology() {
